@@ -46,7 +46,7 @@ class Pipeline:
             t = ex.deref(st, args[0]) if isinstance(args[0], Ref) else args[0]
             ref = t.f[0]
             now = nowvar[0]
-            return Enum(z3.If(now >= ref, z3.IntVal(0), z3.IntVal(1)), {'Ok': Struct([Struct([now - ref])]), 'Err': Struct([Opaque('SystemTimeError')])})
+            return Enum(z3.If(now >= ref, z3.IntVal(0), z3.IntVal(1)), {'Ok': Struct([Struct([now - ref])]), 'Err': Struct([Struct([Struct([ref - now])])])})
         env = [e for e in time_env(z3.IntVal(0)) if 'elapsed' not in e[0]] + [(r'(^|::)SystemTime::elapsed$', elapsed), (r'^<W as ShmWrite>::write$', h_publish)]
         ex = Exec(prog, env=env)
         ex.const_hooks = time_consts()
@@ -206,6 +206,12 @@ def run_check(tier, seed):
         client_order_half(sub, seed)
     except EngineError as e:
         ck.inconclusive.append('interface fact (client reads CLOCK_REALTIME first) not decidable: %s' % e)
+    # third interface fact (the segment layer across a daemon crash and restart): a client call obtains one complete published record
+    try:
+        from .seqlock_checks import segment_layer_part
+        segment_layer_part(sub, seed)
+    except EngineError as e:
+        ck.inconclusive.append('interface fact (segment layer delivers complete records across a crash and restart) not decidable: %s' % e)
     for key, desc, path in sub.violations:
         ck.violations.append(('interface:' + key, 'interface fact of the composition violated - ' + desc, path))
     ck.inconclusive += ['interface fact: ' + i for i in sub.inconclusive]
@@ -264,8 +270,8 @@ def run_check(tier, seed):
             ck.inconclusive.append('the physical assumptions are not satisfiable together (vacuous composition)')
     ck.cov['functions_encoded'] = ['extract_bound_from_tracking', 'ShmUpdater::{new, process_clock_update, process_missing_clock_update, write_clock_error_bound}', 'FSM transition (3 impls, through the vtable)',
                                    'ClockErrorBound::compute_bound_at + nix TimeSpec arithmetic']
-    ck.cov['interface_facts'] = {'C12': 'as-of reading precedes the query; realtime read before monotonic', 'C02/C03/C04': 'a call uses one complete record published before its clock reads',
-                                 'decided_by': 'the respective checks of this framework on the same tree; C01 does not pass on its own if one of them fails'}
+    ck.cov['interface_facts'] = {'C12': 'as-of reading precedes the query; realtime read before monotonic', 'C02/C03/C04': 'a call uses one complete record published before its clock reads (decided here for one update cut at any event + restart + concurrent calls; the deeper bounds are the checks C02-C04)',
+                                 'decided_by': 'the interface obligations are discharged inside this check on the same tree (poller order, client order, segment layer under crash/restart)'}
     ck.cov['bounds'] = {'daemon_steps': '1..%d, every sequence over {report (arbitrary wire values, PHC term, timing), silence within grace, silence beyond grace, daemon restart}' % K,
                         'client': 'one call on the last publication of the sequence, at any later instant (every prefix is its own sequence, so every publication is covered)',
                         'max_drift_ppb': 'the constants %s (products with the drift are then exact linear arithmetic on both sides)' % drifts,
